@@ -110,3 +110,13 @@ def check_resampler(run: common.Run, n, methods=('average', 'nearest', 'bilinear
                 k = np.argmax(np.abs(np.where(mm, m - out, 0)))
                 run.disagree(case, line[:160], repr(m.flat[k]), repr(out.flat[k]),
                              what=f'resampler value ({case["method"]}) rel {rel:.1e}')
+
+
+def centre_tie_mask(og, pg):
+    """(pg.h, pg.w) bool: the centre of the `pg` pixel lies exactly on an `og` pixel edge along an axis - GDAL's
+    nearest / kernel up-sampling then picks a side by float noise, which the model does not describe"""
+    import numpy as np
+    ties = []
+    for (so, sp, sn), (do, dp, dn) in ((og.row_axis, pg.row_axis), (og.col_axis, pg.col_axis)):
+        ties.append(np.array([(2 * (do - so) + dp * (2 * j + 1)) % (2 * sp) == 0 for j in range(dn)], bool))
+    return ties[0][:, None] | ties[1][None, :]
